@@ -95,7 +95,9 @@ func (c *runCtx) craftedStates(r *c19Repo) []craftState {
 	add := func(name string, f func(root string)) { out = append(out, craftState{name, f}) }
 	for _, t := range []struct{ n, id string }{{"blob", blob}, {"commit", commit}, {"missing", missing}, {"zero", strings.Repeat("0", 40)}} {
 		t := t
-		add("commit.tree-is-"+t.n, func(root string) { point(root, putObject(root, "commit", commitBody(t.id, []string{parent}, "crafted"))) })
+		add("commit.tree-is-"+t.n, func(root string) {
+			point(root, putObject(root, "commit", commitBody(t.id, []string{parent}, "crafted")))
+		})
 	}
 	for _, t := range []struct{ n, id string }{{"blob", blob}, {"tree", tree}, {"missing", missing}, {"zero", strings.Repeat("0", 40)}} {
 		t := t
@@ -110,17 +112,17 @@ func (c *runCtx) craftedStates(r *c19Repo) []craftState {
 		point(root, putObject(root, "commit", commitBody(tree, []string{parent, parent, parent}, "three")))
 	})
 	for n, body := range map[string]string{
-		"no-author":      "tree " + tree + "\ncommitter Cor Pus <c@example.com> 1700000000 +0000\n\nm\n",
-		"no-committer":   "tree " + tree + "\nauthor Cor Pus <c@example.com> 1700000000 +0000\n\nm\n",
-		"no-blank-line":  "tree " + tree + "\nauthor Cor Pus <c@example.com> 1700000000 +0000\ncommitter Cor Pus <c@example.com> 1700000000 +0000\n",
-		"no-message":     "tree " + tree + "\nauthor Cor Pus <c@example.com> 1700000000 +0000\ncommitter Cor Pus <c@example.com> 1700000000 +0000\n\n",
-		"extra-header":   "tree " + tree + "\nauthor Cor Pus <c@example.com> 1700000000 +0000\ncommitter Cor Pus <c@example.com> 1700000000 +0000\ngpgsig -----BEGIN\n abc\n -----END\n\nm\n",
-		"huge-time":      "tree " + tree + "\nauthor Cor Pus <c@example.com> 99999999999999999999999 +0000\ncommitter Cor Pus <c@example.com> 1700000000 +0000\n\nm\n",
-		"odd-zone":       "tree " + tree + "\nauthor Cor Pus <c@example.com> 1700000000 +9999\ncommitter Cor Pus <c@example.com> 1700000000 -9999\n\nm\n",
-		"tree-line-last": "author Cor Pus <c@example.com> 1700000000 +0000\ncommitter Cor Pus <c@example.com> 1700000000 +0000\ntree " + tree + "\n\nm\n",
-		"two-tree-lines": "tree " + tree + "\ntree " + tree + "\nauthor Cor Pus <c@example.com> 1700000000 +0000\ncommitter Cor Pus <c@example.com> 1700000000 +0000\n\nm\n",
-		"empty":          "",
-		"only-newlines":  "\n\n\n",
+		"no-author":       "tree " + tree + "\ncommitter Cor Pus <c@example.com> 1700000000 +0000\n\nm\n",
+		"no-committer":    "tree " + tree + "\nauthor Cor Pus <c@example.com> 1700000000 +0000\n\nm\n",
+		"no-blank-line":   "tree " + tree + "\nauthor Cor Pus <c@example.com> 1700000000 +0000\ncommitter Cor Pus <c@example.com> 1700000000 +0000\n",
+		"no-message":      "tree " + tree + "\nauthor Cor Pus <c@example.com> 1700000000 +0000\ncommitter Cor Pus <c@example.com> 1700000000 +0000\n\n",
+		"extra-header":    "tree " + tree + "\nauthor Cor Pus <c@example.com> 1700000000 +0000\ncommitter Cor Pus <c@example.com> 1700000000 +0000\ngpgsig -----BEGIN\n abc\n -----END\n\nm\n",
+		"huge-time":       "tree " + tree + "\nauthor Cor Pus <c@example.com> 99999999999999999999999 +0000\ncommitter Cor Pus <c@example.com> 1700000000 +0000\n\nm\n",
+		"odd-zone":        "tree " + tree + "\nauthor Cor Pus <c@example.com> 1700000000 +9999\ncommitter Cor Pus <c@example.com> 1700000000 -9999\n\nm\n",
+		"tree-line-last":  "author Cor Pus <c@example.com> 1700000000 +0000\ncommitter Cor Pus <c@example.com> 1700000000 +0000\ntree " + tree + "\n\nm\n",
+		"two-tree-lines":  "tree " + tree + "\ntree " + tree + "\nauthor Cor Pus <c@example.com> 1700000000 +0000\ncommitter Cor Pus <c@example.com> 1700000000 +0000\n\nm\n",
+		"empty":           "",
+		"only-newlines":   "\n\n\n",
 		"header-no-value": "tree\nparent\nauthor\ncommitter\n\nm\n",
 	} {
 		body := body
@@ -178,20 +180,20 @@ func (c *runCtx) craftedStates(r *c19Repo) []craftState {
 		add("HEAD."+n, func(root string) { os.WriteFile(filepath.Join(root, "HEAD"), []byte(content), 0o666) })
 	}
 	indexes := map[string][]gitfmt.IndexEntry{
-		"blob-missing":   {{ID: missing, Path: "a.txt"}},
-		"entry-is-tree":  {{ID: tree, Path: "a.txt"}},
+		"blob-missing":    {{ID: missing, Path: "a.txt"}},
+		"entry-is-tree":   {{ID: tree, Path: "a.txt"}},
 		"entry-is-commit": {{ID: commit, Path: "a.txt"}},
-		"double-slash":   {{ID: blob, Path: "dir//x"}},
-		"absolute":       {{ID: blob, Path: "/abs"}},
-		"empty-path":     {{ID: blob, Path: ""}},
-		"trailing-slash": {{ID: blob, Path: "dir/"}},
-		"dot-path":       {{ID: blob, Path: "./a.txt"}},
-		"dotdot-path":    {{ID: blob, Path: "../out"}},
-		"unsorted":       {{ID: blob, Path: "z"}, {ID: blob, Path: "a.txt"}, {ID: blob, Path: "m"}},
-		"duplicates":     {{ID: blob, Path: "a.txt"}, {ID: blob, Path: "a.txt"}},
-		"file-and-dir":   {{ID: blob, Path: "a.txt"}, {ID: blob, Path: "a.txt/x"}},
-		"goit-path":      {{ID: blob, Path: ".goit/HEAD"}},
-		"none":           {},
+		"double-slash":    {{ID: blob, Path: "dir//x"}},
+		"absolute":        {{ID: blob, Path: "/abs"}},
+		"empty-path":      {{ID: blob, Path: ""}},
+		"trailing-slash":  {{ID: blob, Path: "dir/"}},
+		"dot-path":        {{ID: blob, Path: "./a.txt"}},
+		"dotdot-path":     {{ID: blob, Path: "../out"}},
+		"unsorted":        {{ID: blob, Path: "z"}, {ID: blob, Path: "a.txt"}, {ID: blob, Path: "m"}},
+		"duplicates":      {{ID: blob, Path: "a.txt"}, {ID: blob, Path: "a.txt"}},
+		"file-and-dir":    {{ID: blob, Path: "a.txt"}, {ID: blob, Path: "a.txt/x"}},
+		"goit-path":       {{ID: blob, Path: ".goit/HEAD"}},
+		"none":            {},
 	}
 	for n, es := range indexes {
 		es := es
